@@ -7,6 +7,9 @@ FENCE_NOTE = ("Trusts: x86-64 Linux page protection and the fault error code (wr
 ENGINES = [
     {"name": "uni", "path": "harness/uni.c", "serves_properties": ["C17"], "kind_free_text": "Unicode driver: fold-length monitor and normalisation pipe server; reference in vlib/unicode_ref.py"},
     {"name": "oom", "path": "harness/oom.c", "serves_properties": ["C20"], "kind_free_text": "allocation-failure enumerator (--wrap malloc/calloc/realloc/free) with live-block table"},
+    {"name": "cons", "path": "harness/cons.c", "serves_properties": ["C05", "C04", "C03", "C01", "C02"], "kind_free_text": "one documented constraint violation at a time for the printf/scanf, tokenizer, sort/search, fold/normalise, conversion and time/env/file exports; handler count/code, dest cleared"},
+    {"name": "wfmt", "path": "harness/wfmt.c", "serves_properties": ["C01", "C02", "C03", "C04", "C05", "C08"], "kind_free_text": "wide buffer printf_s functions on valid formats around every dmax (libc swprintf differential) and scanf_s families on valid input"},
+    {"name": "erase-solo", "path": "harness/erase/solo.c", "serves_properties": ["C18"], "kind_free_text": "single-call-site erase clients (secret derived in place) with stack/heap/static observers"},
     {"name": "mbconv", "path": "harness/mbconv.c", "serves_properties": ["C15", "C01", "C02", "C03", "C04", "C05", "C08"], "kind_free_text": "multibyte/wide conversion driver with libc reference"},
     {"name": "misc", "path": "harness/misc.c", "serves_properties": ["C01", "C02", "C03", "C04", "C05", "C06", "C08", "C12"], "kind_free_text": "time / error-string / environment / line-input / file exports under the fence with libc references"},
     {"name": "fmtw", "path": "harness/fmtw.c", "serves_properties": ["C09"], "kind_free_text": "wide printf_s + narrow/wide scanf_s drivers with %n sentinels"},
